@@ -78,6 +78,11 @@ def nearestUpTo (cs : Nat → Rat) (x : Rat) : Nat → Nat
 /-- source cell (of `n`) nearest to the centre of target cell `j` (of `n'`) on the same edge -/
 def nearest (n n' j : Nat) : Nat := nearestUpTo (centre01 n) (centre01 n' j) (n - 1)
 
+/-- closed form of `nearest`: the source cell that CONTAINS the centre of target cell `j` (a centre on
+a border of two source cells goes to the upper one), `⌊(2j+1)·n / (2n')⌋` capped at the last cell
+(`Props/C08.nearest_closed_form`) -/
+def nearestFast (n n' j : Nat) : Nat := min (n - 1) (((2 * j + 1) * n) / (2 * n'))
+
 /-- index map of `np.rot90(a, k, axes=(p, q))`, pointwise -/
 def rotSrc (s : List Nat) (p q : Nat) (k : Int) (j : List Nat) : List Nat :=
   tab s.length fun b =>
@@ -162,19 +167,36 @@ def MapOp.apply {α} (op : MapOp) (x : NDA α) (fill : α) : NDA α :=
   | .pad m w => gather x ((MapOp.pad m w).shape x.shape) ((MapOp.pad m w).src x.shape) fill
   | .resample n => gather x ((MapOp.resample n).shape x.shape) ((MapOp.resample n).src x.shape) fill
 
+/-- `resample(n')` through the closed form of the source cell (what the driver runs for arrays with
+thousands of cells along an axis; equal to `(MapOp.resample n').apply`, `Props/C08.resample_fast_is_resample`) -/
+def resampleFast {α} (x : NDA α) (n' : List Nat) : NDA α :=
+  ⟨n', fun j => x.get (tab x.shape.length fun b => nearestFast (x.shape.getD b 0) (n'.getD b 0) (j.getD b 0))⟩
+
 /-! ## results on a new cell set (`mean`, `integrate`, the FFT family, temporary fields) -/
 
 /-- operations whose result is built WITHOUT `valid=`: the constructor's default `valid=True`
 makes every cell of the result valid, whatever the operand's mask was -/
 inductive FreshOp where
-  /-- same cells: `Field(self.mesh, nvdim=…, value=other)` (the temporary field of `f << 3`),
-  `integrate(direction, cumulative=True)`, `fftn`, `ifftn` -/
+  /-- same cells on the SAME mesh object: `Field(self.mesh, nvdim=…, value=other)` (the temporary
+  field of `f << 3`), `integrate(direction, cumulative=True)` -/
   | same
   /-- `mean(direction=…)` / `integrate(direction=…)`: `mesh.sel(d)` for every named direction -/
   | reduce (axes : List Nat)
   /-- `rfftn`: the last axis keeps `n // 2 + 1` frequencies -/
   | rfft
+  /-- `fftn` / `ifftn`: the same number of cells, on a NEW mesh (`mesh.fftn()` / `mesh.ifftn()`) -/
+  | spectrum
+  /-- `irfftn(shape)`: the last axis gets the length named by `shape` (`some last`) or, without a
+  shape, `(n_last - 1)·2` (just `n_last` when that is 1), as `Mesh.ifftn(rfft=True, shape)` does -/
+  | irfft (last : Option Nat)
   deriving Repr, Inhabited
+
+/-- length of the last axis after `irfftn`: the one named by `shape`, else `(n_last - 1)·2`
+(`n_last` itself when it is 1) -/
+def irfftLast (last : Option Nat) (s : List Nat) : Nat :=
+  match last with
+  | some l => l
+  | none => if s.getD (s.length - 1) 0 = 1 then 1 else (s.getD (s.length - 1) 0 - 1) * 2
 
 namespace FreshOp
 
@@ -183,12 +205,18 @@ def ok : FreshOp → List Nat → Bool
   | .same, _ => true
   | .reduce axes, s => axes.all (fun a => decide (a < s.length)) && decide axes.Nodup && decide (axes.length < s.length)
   | .rfft, s => decide (0 < s.length)
+  | .spectrum, _ => true
+  | .irfft last, s =>
+    decide (0 < s.length) && decide (0 < irfftLast last s) &&
+      decide (irfftLast last s / 2 + 1 = s.getD (s.length - 1) 0)
 
 /-- cells per axis of the result's mesh -/
 def shape : FreshOp → List Nat → List Nat
   | .same, s => s
   | .reduce axes, s => ((List.range s.length).filter fun b => !axes.contains b).map fun b => s.getD b 0
   | .rfft, s => tab s.length fun b => if b + 1 = s.length then s.getD b 0 / 2 + 1 else s.getD b 0
+  | .spectrum, s => s
+  | .irfft last, s => tab s.length fun b => if b + 1 = s.length then irfftLast last s else s.getD b 0
 
 end FreshOp
 
@@ -702,6 +730,203 @@ def run (st : Sess) : List Stmt → M Sess
     | .ok st' => run st' rest
 
 end Sess
+
+/-! ## which Mesh OBJECT a result carries
+
+`field.py` hands `self.mesh` to the constructor in every operation that keeps the cells (unary,
+derived, binary — the left operand's —, the temporary field of `f << 3`, cumulative integrals):
+the result holds a reference to the SAME `Mesh` object as its operand.  Operations that map cells
+(`sel`, `field[…]`, `pad`, `resample`, `rotate90`), file round trips, directional means / integrals
+and the FFT family build a new mesh.  Since repo fix d0059dba an in-place `rotate90` binds a NEW
+mesh object to the turned field (`self._mesh = mesh`) instead of turning the shared object. -/
+
+/-- the variable whose mesh object the result of the program carries (`none`: a mesh built by the
+operation itself) -/
+def meshOf : Prog → Option Nat
+  | .leaf k => some k
+  | .pos p => meshOf p
+  | .un p => meshOf p
+  | .binC p => meshOf p
+  | .binF p _ => meshOf p
+  | .map _ _ => none
+  | .vtk _ => none
+  | .hdf5 _ => none
+  | .setv _ p => meshOf p
+  | .fresh .same p => meshOf p
+  | .fresh _ _ => none
+
+/-- a session together with the mesh objects: object ↦ mesh object, mesh object ↦ cells per axis.
+Nothing ever changes an entry of `meshN` (mesh objects are not mutated by field operations). -/
+structure SessM where
+  base : Sess
+  meshes : List Nat
+  meshN : List (List Nat)
+
+namespace SessM
+
+/-- every input field on a mesh object of its own -/
+def init (leaves : List Mask) : SessM :=
+  { base := Sess.init leaves, meshes := List.range leaves.length,
+    meshN := (List.range leaves.length).map fun k => (leaves.getD k (NDA.const [] false)).shape }
+
+/-- mesh object of variable `i` -/
+def meshObj (st : SessM) (i : Nat) : Nat := st.meshes.getD (st.base.objOf i) 0
+
+/-- `x_i.mesh.n` -/
+def meshNOf (st : SessM) (i : Nat) : List Nat := st.meshN.getD (st.meshObj i) []
+
+/-- one statement: the masks as in `Sess.step`; a built field carries its operand's mesh object or
+a new one (`meshOf`), an in-place quarter turn binds a new mesh object to the turned field,
+assignments and element writes leave the meshes alone -/
+def step (st : SessM) : Stmt → M SessM
+  | .build p =>
+    match st.base.step (.build p) with
+    | .error e => .error e
+    | .ok b =>
+      match aliasOf p with
+      | some _ => .ok { st with base := b }
+      | none =>
+        match meshOf p with
+        | some k => .ok { st with base := b, meshes := st.meshes ++ [st.meshObj k] }
+        | none => .ok { base := b, meshes := st.meshes ++ [st.meshN.length],
+                        meshN := st.meshN ++ [b.shapeOfVar st.base.vars.length] }
+  | .assign i s =>
+    match st.base.step (.assign i s) with
+    | .error e => .error e
+    | .ok b => .ok { st with base := b }
+  | .rotI i a b k =>
+    match st.base.step (.rotI i a b k) with
+    | .error e => .error e
+    | .ok b' => .ok { base := b', meshes := st.meshes.set (st.base.objOf i) st.meshN.length,
+                      meshN := st.meshN ++ [b'.shapeOfVar i] }
+  | .poke i pos v =>
+    match st.base.step (.poke i pos v) with
+    | .error e => .error e
+    | .ok b => .ok { st with base := b }
+
+def run (st : SessM) : List Stmt → M SessM
+  | [] => .ok st
+  | s :: rest =>
+    match st.step s with
+    | .error e => .error e
+    | .ok st' => run st' rest
+
+/-- the behaviour BEFORE repo fix d0059dba, for contrast: the in-place quarter turn turned the mesh
+object itself — under every other field that holds it -/
+def rotIOld (st : SessM) (i a b : Nat) (k : Int) : M SessM :=
+  match st.base.step (.rotI i a b k) with
+  | .error e => .error e
+  | .ok b' => .ok { st with base := b', meshN := st.meshN.set (st.meshObj i) (b'.shapeOfVar i) }
+
+end SessM
+
+/-! ## a dictionary over the subregions of the mesh as validity
+
+`Field._as_array` for a `dict` (`dtype=bool`, one component): an array filled with the non-callable
+`"default"` (else zeros, every cell still *unset*); then, for the subregions of the mesh in
+REVERSED order, `array[slices] = _as_array(val[name], mesh[name], …)` when the name is a key (the
+first subregion so wins where subregions overlap); cells still unset get the callable default at
+their centre; unset cells without a default are a `KeyError`. -/
+
+inductive DDefault where
+  | none
+  /-- a number (`np.full(..., default, dtype=bool)`) -/
+  | const (v : Rat)
+  /-- a callable, already composed with "centre of cell `j` of the mesh" -/
+  | func (g : List Nat → Bool)
+
+/-- one subregion of the mesh, in the order of `mesh.subregions`: the block `lo ≤ j < hi` of
+`region2slices`, and what the dictionary holds under its name (`none`: not a key) -/
+structure DEntry where
+  lo : List Nat
+  hi : List Nat
+  val : Option MSpec
+
+structure DictSpec where
+  dflt : DDefault
+  subs : List DEntry
+
+def inBox (lo hi j : List Nat) : Bool :=
+  allLt lo.length fun b => decide (lo.getD b 0 ≤ j.getD b 0) && decide (j.getD b 0 < hi.getD b 0)
+
+/-- cells per axis of `mesh[name]` -/
+def boxShape (lo hi : List Nat) : List Nat := tab lo.length fun b => hi.getD b 0 - lo.getD b 0
+
+/-- index inside the block -/
+def boxIdx (lo j : List Nat) : List Nat := tab lo.length fun b => j.getD b 0 - lo.getD b 0
+
+/-- the loop over the subregions (in the order given): `(array, unset)` -/
+def paint (n : List Nat) : List DEntry → Mask × Mask → M (Mask × Mask)
+  | [], st => .ok st
+  | e :: rest, st =>
+    match e.val with
+    | none => paint n rest st
+    | some s =>
+      match setMask (boxShape e.lo e.hi) s with
+      | .error er => .error er
+      | .ok sm =>
+        paint n rest (⟨n, fun j => if inBox e.lo e.hi j then sm.get (boxIdx e.lo j) else st.1.get j⟩,
+                      ⟨n, fun j => if inBox e.lo e.hi j then false else st.2.get j⟩)
+
+/-- `_as_array(dict)[..., 0]` through the setter -/
+def setMaskDict (n : List Nat) (d : DictSpec) : M Mask :=
+  match paint n d.subs.reverse
+      (match d.dflt with
+       | .const v => (NDA.const n (decide (v ≠ 0)), NDA.const n false)
+       | _ => (NDA.const n false, NDA.const n true)) with
+  | .error e => .error e
+  | .ok st =>
+    if (indicesC n).any st.2.get then
+      match d.dflt with
+      | .func g => .ok (own ⟨n, fun j => if st.2.get j then g j else st.1.get j⟩)
+      | _ => .error .key
+    else .ok (own ⟨n, st.1.get⟩)
+
+/-- everything the validity setter accepts -/
+inductive SetArg where
+  | plain (s : MSpec)
+  | dict (d : DictSpec)
+
+/-- the setter as ONE total function of its argument -/
+def setMaskAny (n : List Nat) : SetArg → M Mask
+  | .plain s => setMask n s
+  | .dict d => setMaskDict n d
+
+/-- index-level reading of the dictionary: the FIRST subregion (in the order of the mesh) whose
+name is a key and whose block contains `j` decides; else the default -/
+def dictCell (dflt : DDefault) : List DEntry → List Nat → Bool
+  | [], j =>
+    match dflt with
+    | .none => false
+    | .const v => decide (v ≠ 0)
+    | .func g => g j
+  | e :: rest, j =>
+    match e.val with
+    | none => dictCell dflt rest j
+    | some s => if inBox e.lo e.hi j then specMask (boxShape e.lo e.hi) s (boxIdx e.lo j) else dictCell dflt rest j
+
+/-- is cell `j` covered by a subregion whose name is a key? -/
+def dictCovered : List DEntry → List Nat → Bool
+  | [], _ => false
+  | e :: rest, j => (e.val.isSome && inBox e.lo e.hi j) || dictCovered rest j
+
+/-- well-formed dictionary argument: every value is acceptable on its own subregion, and a default
+exists unless every cell is covered -/
+def entriesOk (es : List DEntry) : Bool :=
+  es.all fun e => match e.val with
+    | none => true
+    | some s => s.ok (boxShape e.lo e.hi)
+
+def DictSpec.ok (n : List Nat) (d : DictSpec) : Bool :=
+  entriesOk d.subs &&
+  ((indicesC n).all (fun j => dictCovered d.subs j) ||
+    match d.dflt with
+    | .none => false
+    | _ => true)
+
+def SetArg.ok (n : List Nat) : SetArg → Bool
+  | .plain s => s.ok n
+  | .dict d => d.ok n
 
 /-- the variable whose mask the statement changes in place (`none`: it only builds a new field) -/
 def Stmt.target : Stmt → Option Nat
